@@ -23,7 +23,12 @@ def run(cmd, env=None):
 
 
 def main():
-    want = set(sys.argv[1:])
+    args = sys.argv[1:]
+    out = KF
+    if args and args[0] == "--out":
+        out = args[1]
+        args = args[2:]
+    want = set(args)
     d = json.load(open(KF))
     props = sorted({f["property"] for f in d["findings"] if f.get("status") == "fixed"})
     for pid in props:
@@ -80,7 +85,11 @@ def main():
             else:
                 f["replay"] = "(none kept: no rapid fail file of the current harness reproduces exactly this signature at %s^ within 3 quick seeds; the generator still produces the triggering shape, see the class counters in the evidence)" % commit
             print("%s %-75s %s" % (pid, sig[:75], kept if kept else "NONE"), flush=True)
-    json.dump(d, open(KF, "w"), indent=1, ensure_ascii=False)
+    if out == KF:
+        json.dump(d, open(KF, "w"), indent=1, ensure_ascii=False)
+    else:  # side file: only the replay fields of the properties handled here (merge with lib/recapture_merge.py)
+        json.dump([{"property": f["property"], "signature": f["signature"], "replay": f.get("replay")} for f in d["findings"]
+                   if f.get("status") == "fixed" and (not want or f["property"] in want)], open(out, "w"), indent=1, ensure_ascii=False)
 
 
 if __name__ == "__main__":
